@@ -166,3 +166,42 @@ func c12Status() int {
 	vAssume(s >= 100 && s <= 599 && s != 200)
 	return s
 }
+
+// Harness_C12_getSTHHistory: two GetSTH calls on one client. The second reply repeats the first
+// reply's signature bytes, with the same or with different signed fields: every STH handed back is
+// verified over its own fields, whatever the client saw before (a signature is valid for one
+// signed input only).
+//
+//verif:opt maxpaths=4000 reach=both-returned,second-refused
+func Harness_C12_getSTHHistory() {
+	srv := &c12Server{}
+	c, key := c12Client(srv, true)
+	sig := vBytes("sig", 2)
+	root1, root2 := vBytes("root1", 32), vBytes("root2", 32)
+	size1, ts1 := vU64("size1"), vU64("ts1")
+	size2, ts2 := vU64("size2"), vU64("ts2")
+	call := 0
+	srv.respond = func(req *http.Request) (*http.Response, error) {
+		call++
+		ds := rfcDigitallySigned(byte(tls.SHA256), byte(tls.ECDSA), sig)
+		if call == 1 {
+			return c12Response(req, 200, vJSONEncode(ct.GetSTHResponse{TreeSize: size1, Timestamp: ts1, SHA256RootHash: root1, TreeHeadSignature: ds})), nil
+		}
+		return c12Response(req, 200, vJSONEncode(ct.GetSTHResponse{TreeSize: size2, Timestamp: ts2, SHA256RootHash: root2, TreeHeadSignature: ds})), nil
+	}
+	tls.VerifCtlVerdict, tls.VerifCtlCalls = true, 0
+	sth1, err := c.GetSTH(context.Background())
+	vAssert(err == nil && sth1 != nil && tls.VerifCtlCalls == 1, "the first, validly signed STH is returned after verification")
+	// the second reply's signature is valid only if its signed fields are the first reply's
+	same := size1 == size2 && ts1 == ts2 && bytes.Equal(root1, root2)
+	tls.VerifCtlVerdict = same
+	sth2, err := c.GetSTH(context.Background())
+	vAssert(tls.VerifCtlCalls == 2 && tls.VerifCtlKey == any(key) && bytes.Equal(tls.VerifCtlData, rfcSTHSignatureInput(ts2, size2, root2)), "the second STH is verified too, over its own fields")
+	if same {
+		vAssert(err == nil && sth2 != nil, "the identical STH verifies again")
+		vReach("both-returned")
+	} else {
+		vAssert(err != nil && sth2 == nil, "an STH that re-uses a signature made for other fields is refused")
+		vReach("second-refused")
+	}
+}
